@@ -27,7 +27,7 @@ CONFIG = dict(
         "Rbgp.Fsm.Props.established_survives_newcomer",
         "Rbgp.Fsm.Props.collision_survivor",
     ],
-    harness=dict(kind="daemon", test="fsm::verif_fsm::verif_main"),
+    harness=dict(kind="daemon", test="event::verif_event::c07::verif_main"),
     profiles=["debug"],
     n_quick=3000, n_thorough=150000, shards=12,
     nontrivial_re=r"established|down|parse-reject",
@@ -110,28 +110,122 @@ def gen_case(r):
     return "(case (cfg %d %d %d %d) (evs %s))" % (local_rid, local_asn, local_hold, expected, " ".join(evs))
 
 
-def exhaustive(maxlen):
-    """Every history of length <= maxlen over a reduced alphabet (8 events x 2 roles), for the three
-    orderings of local vs remote identifier; remote AS/identifier fixed and valid."""
-    import itertools
-    alpha = []
-    for role in ("A", "P"):
-        for ev in ("(connected f)", "(open 65002 60 33686018)", "(open 65003 60 33686018)", "keepalive", "update",
-                   "(notification 6 2)", "hold-timer", "disconnected"):
-            alpha.append("(%s %s)" % (role, ev))
+def bfs_cases():
+    """Exhaustive part: breadth-first search over the reachable states of the MODEL (computed by the Lean driver, so the
+    search cannot drift from the model) x the FULL event alphabet of both roles, for the three orderings of local vs
+    remote identifier.  A model state is identified by both role states plus, for a confirmed role, the OPEN that
+    confirmed it (that fixes every field of the connection).  One case per (state, event): the shortest history found
+    reaching the state, followed by the event.  About 20 states x 38 events x 3 configurations."""
+    import os, subprocess
+    drv = os.path.join(os.path.dirname(os.path.dirname(os.path.abspath(__file__))), "lean", ".lake", "build", "bin", "drv_c07")
+    if not os.path.exists(drv):
+        return []
+    opens_ok = ["(open 65002 60 33686018)", "(open 65002 0 33686018)", "(open-parsed 65002 60 33686018)"]
+    alpha_ev = ["(connected f)", "(connected t)"] + opens_ok + [
+        "(open 65003 60 33686018)",          # unexpected AS
+        "(open 65002 1 33686018)",           # unacceptable hold time
+        "(open 65002 60 0)",                 # unacceptable identifier
+        "(open 65002 2 4294967295)",         # both
+        "keepalive", "update", "(notification 6 2)", "(notification 4 0)", "(route-refresh 1)",
+        "ka-timer", "hold-timer", "disconnected", "admin-shutdown", "update-sent"]
+    alpha = ["(%s %s)" % (role, ev) for role in ("A", "P") for ev in alpha_ev]
+    st_re = __import__("re").compile(r"\) (idle|connect|active|opensent|openconfirm|established) (idle|connect|active|opensent|openconfirm|established)\)")
+
+    def keys_of(local_rid, hists):
+        """final state key of each history (list of event strings), via the model"""
+        lines = ["(case (cfg %d 65001 90 65002) (evs %s))" % (local_rid, " ".join(h)) for h in hists]
+        p = subprocess.run([drv, "model"], input="\n".join(lines) + "\n", stdout=subprocess.PIPE, text=True, timeout=600)
+        outs = p.stdout.split("\n")
+        keys = []
+        for h, o in zip(hists, outs):
+            sts = st_re.findall(o)
+            if len(sts) != len(h):
+                keys.append(None)
+                continue
+            conf = {"A": None, "P": None}
+            prev = ("idle", "idle")
+            for ev, (a, pp) in zip(h, sts):
+                cur = {"A": a, "P": pp}
+                role = ev[1]
+                was = prev[0] if role == "A" else prev[1]
+                if was == "opensent" and cur[role] == "openconfirm":
+                    conf[role] = ev[3:]
+                for rr in ("A", "P"):
+                    if cur[rr] not in ("openconfirm", "established"):
+                        conf[rr] = None
+                prev = (a, pp)
+            keys.append((prev[0], conf["A"], prev[1], conf["P"]))
+        return keys
+
     out = []
     for local_rid in (1, 33686018, 167772161):        # lower, equal, higher than the remote identifier
-        for k in range(1, maxlen + 1):
-            for seq in itertools.product(alpha, repeat=k):
-                out.append("(case (cfg %d 65001 90 65002) (evs %s))" % (local_rid, " ".join(seq)))
+        seen = {("idle", None, "idle", None): []}
+        frontier = [[]]
+        while frontier:
+            cands = [h + [e] for h in frontier for e in alpha]
+            keys = keys_of(local_rid, cands)
+            nxt = []
+            for h, k in zip(cands, keys):
+                out.append("(case (cfg %d 65001 90 65002) (evs %s))" % (local_rid, " ".join(h)))
+                if k is not None and k not in seen:
+                    seen[k] = h
+                    nxt.append(h)
+            frontier = nxt
     return out
+
+
+def gen_wire(r):
+    """Driver-level case (harness/daemon/rig.rs: real accept_connection / ConnArbiter::process with real close
+    channels / run_select / apply_disconnect on loopback TCP); model Rbgp/Fsm/Wire.lean."""
+    local_hold = r.pick([0, 3, 90, 90, 240])
+    remote_hold = r.pick([0, 3, 30, 90])
+    local_rid = r.pick([16777217, 33686018, 167772161])
+    remote_rid = 33686018
+    expected = r.pick([0, 65002, 65002])
+    evs = []
+    prog = {"A": 0, "P": 0}
+    for _ in range(2 + r.below(r.pick([4, 8, 12]))):
+        role = r.pick(["A", "P"])
+        p = prog[role]
+        if p == 0:
+            k = r.weighted([("connect", 10), ("rand", 1)])
+        elif p == 1:
+            k = r.weighted([("open", 10), ("rand", 3)])
+        elif p == 2:
+            k = r.weighted([("keepalive", 6), ("rand", 4)])
+        else:
+            k = r.weighted([("rand", 6), ("keepalive", 2), ("connect", 2)])
+        if k == "rand":
+            k = r.pick(["connect", "open", "badopen", "keepalive", "update", "update-looped", "update-attrs", "eor",
+                        "notification", "route-refresh", "close", "admin-shutdown", "hold-timer", "ka-timer"])
+        if k == "connect":
+            t = "connect"; prog[role] = max(prog[role], 1)
+        elif k == "open":
+            t = "(open %d %d %d)" % (65002 if r.chance(7, 8) else 65003, remote_hold, remote_rid)
+            prog[role] = 2 if prog[role] == 1 else 0
+        elif k == "badopen":
+            t = "(open 65002 %d %d)" % (r.pick([1, 2, remote_hold]), r.pick([0, 4294967295, 3758096385, remote_rid]))
+            prog[role] = 0
+        elif k == "notification":
+            t = "(notification %d %d)" % r.pick(NOTIFS); prog[role] = 0
+        elif k == "keepalive":
+            t = k; prog[role] = 3 if prog[role] >= 2 else 0
+        elif k == "ka-timer":
+            if min(local_hold, remote_hold) == 0:
+                continue            # a keepalive interval of 0 re-fires at once (outside the property, see C08)
+            t = k
+        else:
+            t = k
+            if k in ("close", "admin-shutdown", "hold-timer"):
+                prog[role] = 0
+        evs.append("(%s %s)" % (role, t))
+    return "(wire (cfg %d 65001 %d %d) (evs %s))" % (local_rid, local_hold, expected, " ".join(evs))
 
 
 def gen(seed, n, tier):
     r = Rng(seed * 1000003 + 7)
-    cases = [gen_case(r) for _ in range(n)]
-    if tier == "thorough":
-        cases += exhaustive(4)       # 3 * (16 + 256 + 4096 + 65536) = 209,712 histories
-    else:
-        cases += exhaustive(2)       # 816 histories: every pair of events
+    cases = []
+    for _ in range(n):
+        cases.append(gen_wire(r) if r.chance(1, 20) else gen_case(r))
+    cases += bfs_cases()
     return cases
